@@ -31,7 +31,10 @@ RULE = (
     "output shows equal spike times, samples, clusters, templates, channel positions and channel "
     "map; convert(source_dir) - spelled plainly, as str, through '..', through a symlink or relative to the cwd - raises IOError and writes nothing; SHA-256 of every pre-existing "
     "source file unchanged except temp_wh.dat (deleted) and the _phy_spikes_subset.* files (the "
-    "only additions). Non-trivial: curated, or a label, or (n,1) storage, or no raw data.")
+    "only additions). Histories: a second conversion from the same model object into another "
+    "directory (any label), and - for unlabelled exports - curate again, reload and convert again "
+    "into the same directory with force=True; every output is verified with the same predicates. "
+    "Non-trivial: curated, or a label, or (n,1) storage, or no raw data.")
 ASSUMPTIONS = ['pc-feature stores that hold all spikes (a row-subset store has no depth '
                'definition in the statement)', 'mtscomp as codec']
 FAMILIES = ('spikes.', 'clusters.', 'templates.', 'channels.')
@@ -49,7 +52,9 @@ def _case(draw):
             'extras': draw(st.lists(st.sampled_from(['kslabel', 'channel_labels', 'cluster_shanks',
                                                       'temp_wh']), unique=True, max_size=4)),
             'ncc': draw(st.sampled_from([12, 12, 3, 5])),
-            'samedir': draw(st.sampled_from(['plain', 'str', 'dotdot', 'symlink', 'relative']))}
+            'samedir': draw(st.sampled_from(['plain', 'str', 'dotdot', 'symlink', 'relative'])),
+            'second': draw(st.booleans()), 'second_label': draw(st.sampled_from(LABELS)),
+            'reexport': draw(st.none() | st.lists(D._curation_op, min_size=1, max_size=3))}
 
 
 def drivers(tier):
@@ -113,6 +118,44 @@ def check_file_set(out, label, ns, n_clusters, nt, nc):
         require(k >= 1, 'no %s* file written' % fam, key='family-missing')
 
 
+def verify_output(out, out_model, T, sc, n_clusters, label):
+    """File-set predicate, spike tables, identifiers and reload equality for one conversion."""
+    ns, nt, nc = T.spec['ns'], T.spec['nt'], T.spec['nc']
+    # -- file set -------------------------------------------------------------------
+    check_file_set(out, label, ns, n_clusters, nt, nc)
+    lab = ('.' + label) if label else ''
+    times = np.load(out / ('spikes.times%s.npy' % lab))
+    same_array('spikes.times (seconds)', times, T.samples / T.rate, key='spikes-times',
+               dtype=False, tol=(1e-12, 0))
+    samples = np.load(out / ('spikes.samples%s.npy' % lab))
+    same_array('spikes.samples', samples, T.samples, key='spikes-samples', dtype=False)
+    # uuids
+    lines = (out / ('clusters.uuids%s.csv' % lab)).read_text().split('\n')
+    require(lines[0] == 'uuids' and len(lines) == n_clusters + 1, 'clusters.uuids layout',
+            key='uuids', observed=lines[:3])
+    try:
+        us = [uuid.UUID(x) for x in lines[1:]]
+    except Exception:
+        raise Violation('clusters.uuids holds an unparseable identifier', key='uuids')
+    require(len(set(us)) == n_clusters, 'cluster identifiers not unique', key='uuids')
+    # -- the output loads back to the same spikes ---------------------------------------
+    require(out_model is not None, 'convert returned no model', key='no-model')
+    same_array('reloaded spike_times', out_model.spike_times, T.samples / T.rate,
+               key='reload-times', dtype=False, tol=(1e-12, 0))
+    same_array('reloaded spike_samples', np.asarray(out_model.spike_samples).astype(np.int64),
+               T.samples.astype(np.int64), key='reload-samples')
+    same_array('reloaded spike_clusters', np.asarray(out_model.spike_clusters).astype(np.int64),
+               np.array(sc, dtype=np.int64), key='reload-clusters')
+    same_array('reloaded spike_templates',
+               np.asarray(out_model.spike_templates).astype(np.int64),
+               T.spike_templates.astype(np.int64), key='reload-templates')
+    same_array('reloaded channel_positions', out_model.channel_positions, T.pos,
+               key='reload-positions', dtype=False)
+    same_array('reloaded channel_mapping',
+               np.asarray(out_model.channel_mapping).astype(np.int64),
+               T.chmap.astype(np.int64), key='reload-chmap')
+
+
 def check(case):
     spec, label = case['spec'], case['label']
     info = {}
@@ -151,39 +194,7 @@ def check(case):
             out = d / 'alf'
             out_model = must_return('convert', creator.convert, out, label=label,
                                     ampfactor=case['factor'])
-            # -- file set -------------------------------------------------------------------
-            check_file_set(out, label, ns, n_clusters, nt, nc)
-            lab = ('.' + label) if label else ''
-            times = np.load(out / ('spikes.times%s.npy' % lab))
-            same_array('spikes.times (seconds)', times, T.samples / T.rate, key='spikes-times',
-                       dtype=False, tol=(1e-12, 0))
-            samples = np.load(out / ('spikes.samples%s.npy' % lab))
-            same_array('spikes.samples', samples, T.samples, key='spikes-samples', dtype=False)
-            # uuids
-            lines = (out / ('clusters.uuids%s.csv' % lab)).read_text().split('\n')
-            require(lines[0] == 'uuids' and len(lines) == n_clusters + 1, 'clusters.uuids layout',
-                    key='uuids', observed=lines[:3])
-            try:
-                us = [uuid.UUID(x) for x in lines[1:]]
-            except Exception:
-                raise Violation('clusters.uuids holds an unparseable identifier', key='uuids')
-            require(len(set(us)) == n_clusters, 'cluster identifiers not unique', key='uuids')
-            # -- the output loads back to the same spikes ---------------------------------------
-            require(out_model is not None, 'convert returned no model', key='no-model')
-            same_array('reloaded spike_times', out_model.spike_times, T.samples / T.rate,
-                       key='reload-times', dtype=False, tol=(1e-12, 0))
-            same_array('reloaded spike_samples', np.asarray(out_model.spike_samples).astype(np.int64),
-                       T.samples.astype(np.int64), key='reload-samples')
-            same_array('reloaded spike_clusters', np.asarray(out_model.spike_clusters).astype(np.int64),
-                       np.array(sc, dtype=np.int64), key='reload-clusters')
-            same_array('reloaded spike_templates',
-                       np.asarray(out_model.spike_templates).astype(np.int64),
-                       T.spike_templates.astype(np.int64), key='reload-templates')
-            same_array('reloaded channel_positions', out_model.channel_positions, T.pos,
-                       key='reload-positions', dtype=False)
-            same_array('reloaded channel_mapping',
-                       np.asarray(out_model.channel_mapping).astype(np.int64),
-                       T.chmap.astype(np.int64), key='reload-chmap')
+            verify_output(out, out_model, T, sc, n_clusters, label)
             # -- source directory -----------------------------------------------------------------
             after = D.sha_dir(T.dir)
             subset = {'_phy_spikes_subset.waveforms.npy', '_phy_spikes_subset.spikes.npy',
@@ -200,6 +211,44 @@ def check(case):
             require(added <= subset, 'conversion added files to the source directory',
                     key='source-added', observed=sorted(added))
             info['subset_written'] = bool(added)
+            # -- a second conversion from the same model object, into another directory ------------
+            if case.get('second'):
+                out2 = d / 'alf2'
+                om2 = must_return('convert (second, same model)', creator.convert, out2,
+                                  label=case['second_label'], ampfactor=case['factor'])
+                try:
+                    verify_output(out2, om2, T, sc, n_clusters, case['second_label'])
+                finally:
+                    try:
+                        om2.close()
+                    except Exception:
+                        pass
+            # -- history: curate again, reload, convert again into the SAME directory (force) --------
+            new = D.apply_curation(sc, case['reexport']) if case.get('reexport') else None
+            if new is not None and (T.dir / 'cluster_shanks.npy').exists() and \
+                    new != [int(x) for x in T.spike_templates] and max(new) + 1 < 2:
+                new = None      # a one-row per-cluster input file would be squeezed to 0-d
+            if new is not None and not label:
+                must_return('save_spike_clusters', m.save_spike_clusters, np.array(new, dtype=np.int32))
+                for mm in (m, out_model):
+                    try:
+                        mm.close()
+                    except Exception:
+                        pass
+                m = D.load(T, must_return)
+                out_model = None
+                m.n_closest_channels = case['ncc']
+                T.spike_clusters = np.array(new, dtype=np.int64)
+                curated2 = new != [int(x) for x in T.spike_templates]
+                n2 = (max(new) + 1) if curated2 else nt
+                if (T.dir / 'cluster_shanks.npy').exists():
+                    # per-cluster input file of the source: keep it in step with the new curation
+                    np.save(T.dir / 'cluster_shanks.npy', np.zeros((n2, 1), dtype=np.int32))
+                creator2 = must_return('EphysAlfCreator()', EphysAlfCreator, m)
+                out_model = must_return('convert (again, same directory, force)', creator2.convert,
+                                        out, force=True, label='', ampfactor=case['factor'])
+                verify_output(out, out_model, T, new, n2, '')
+                info['reexported'] = True
         finally:
             for mm in (m, out_model):
                 try:
@@ -237,6 +286,10 @@ def classify(case, info):
         labels.append('features')
     for e in case['extras']:
         labels.append('extra:' + e)
+    if case.get('second'):
+        labels.append('second-conversion-same-model')
+    if info.get('reexported'):
+        labels.append('re-export-into-same-directory')
     if max(s['spike_templates']) < s['nt'] - 1:
         labels.append('highest-template-unused')
     return labels, nt
